@@ -135,24 +135,38 @@ impl XmlReader {
     }
 
     fn read_xml_internal(file: &FileContent, file_name: &str, files: &Files) -> WriterResult<RustDocument> {
+        let mut rust_doc = RustDocument::empty();
+        Self::read_file_into(file, file_name, files, &mut rust_doc)?;
+        Ok(rust_doc)
+    }
+
+    /// Read one file into the document. All files of a run share the document, so that the components and the
+    /// namespaces of a file that was read before are known to every file that imports it as well; the prefix
+    /// bindings and the target namespace are those of the file that is being read.
+    fn read_file_into(
+        file: &FileContent,
+        file_name: &str,
+        files: &Files,
+        rust_doc: &mut RustDocument,
+    ) -> WriterResult<()> {
         if file.processed.load(std::sync::atomic::Ordering::SeqCst) {
-            let rust_doc = RustDocument::empty();
-            return Ok(rust_doc);
+            return Ok(());
         }
 
         let xml = &file.xml;
         let doc = roxmltree::Document::parse(xml)
             .map_err(|e| WriterError::new(format!("Unable to parse file {file_name}: {e}")))?;
-        let mut rust_doc = RustDocument::init(&doc);
+        let scope = rust_doc.enter_file(&doc);
 
         // mark the file before following its imports, so that mutual and self imports terminate
         file.processed.store(true, std::sync::atomic::Ordering::SeqCst);
 
-        for child in doc.root().children() {
-            Self::read(child, files, &mut rust_doc)?;
-        }
-
-        Ok(rust_doc)
+        let result = doc
+            .root()
+            .children()
+            .try_for_each(|child| Self::read(child, files, rust_doc));
+        rust_doc.leave_file(scope);
+        result
     }
 
     fn read<'n>(node: Node<'n, 'n>, files: &Files, doc: &mut RustDocument) -> WriterResult<()> {
@@ -225,7 +239,7 @@ impl XmlReader {
     fn read_xsd<'n>(node: Node<'n, 'n>, files: &Files, doc: &mut RustDocument) -> WriterResult<()> {
         for child in node.children() {
             if child.tag_name().name() == "import" {
-                doc.extend(Self::process_import(child, files)?);
+                Self::process_import(child, files, doc)?;
                 continue;
             }
 
@@ -237,15 +251,15 @@ impl XmlReader {
         Ok(())
     }
 
-    fn process_import(node: Node, files: &Files) -> WriterResult<RustDocument> {
+    fn process_import(node: Node, files: &Files, doc: &mut RustDocument) -> WriterResult<()> {
         let namespace = node.attribute("namespace").ok_or(WriterError::NamespaceMissing)?;
 
         if WELL_KNOWN_NAMESPACES.contains(&namespace) {
-            return Ok(RustDocument::empty());
+            return Ok(());
         }
 
         let Some(schema_location) = node.attribute("schemaLocation") else {
-            return Ok(RustDocument::empty());
+            return Ok(());
         };
 
         let file = files
@@ -253,12 +267,7 @@ impl XmlReader {
             .get(schema_location)
             .ok_or_else(|| WriterError::ImportNotFound(schema_location.to_string()))?;
 
-        if file.processed.load(std::sync::atomic::Ordering::Relaxed) {
-            return Ok(RustDocument::empty());
-        }
-
-        let rust_doc = Self::read_xml_internal(file, schema_location, files)?;
-        Ok(rust_doc)
+        Self::read_file_into(file, schema_location, files, doc)
     }
 }
 
